@@ -37,6 +37,10 @@ package cookie
 //@     && arg(SignedValue, 1) == s.Cookie.Name && arg(SignedValue, 2) == value && arg(SignedValue, 3) == now
 //@ at call makeCookie assert[name-and-lifetime] arg(makeCookie, 2) == s.Cookie.Name && arg(makeCookie, 4) == s.Cookie.Expire
 //@     && (bytes(value) != "" ==> arg(makeCookie, 3) == ret0(SignedValue) && ret1(SignedValue) == nil)
+//@ prop C10 C18
+//@ ensures[unsplit-only-if-the-serialised-cookie-fits] ret1 == nil && !called(splitCookie) ==>
+//@     overheadOf(ret(makeCookie), ret(makeCookie).Name) + len(ret(makeCookie).Value) <= 4000 && len(ret0) == 1 && ret0[0] == ret(makeCookie)
+//@ ensures[otherwise-split] called(splitCookie) ==> arg(splitCookie, 0) == ret(makeCookie) && ret0 == ret(splitCookie)
 
 //@ func (*SessionStore).makeCookie
 //@ prop C18 C09
@@ -50,3 +54,69 @@ package cookie
 //@     && arg(makeCookie, 4) < 0 && ret(MatchString) && arg(MatchString, 1) == c.Name
 //@ at call http.SetCookie assert[sets-the-deletion] arg(http.SetCookie, 1) == ret(makeCookie) && arg(http.SetCookie, 0) == rw
 //@ ensures[never-fails] ret0 == nil
+
+// ------------------------------------------------------------------ C10 / C18: splitting and joining
+//@ define overheadOf(c *http.Cookie, name string) int = cookieOverhead(name, c.Path, c.Domain, c.MaxAge, c.Secure, c.HttpOnly, c.SameSite)
+
+//@ func copyCookie
+//@ nomod
+//@ fresh
+//@ prop C10 C18
+//@ ensures[all-attributes-copied] result != nil && result.Name == c.Name && result.Value == c.Value && result.Path == c.Path
+//@     && result.Domain == c.Domain && result.MaxAge == c.MaxAge && result.Secure == c.Secure && result.HttpOnly == c.HttpOnly
+//@     && result.SameSite == c.SameSite
+
+//@ func splitCookieName
+//@ safety
+//@ pure
+//@ specname splitName
+//@ prop C10 C19
+//@ requires[config:cookie-name-at-most-256-bytes] len(name) <= 256
+//@ ensures[name-underscore-index-when-it-fits] len(name) + 1 + len(itoa(count)) <= 256 && count >= 0 ==> result == name + "_" + itoa(count)
+
+// ghost acc: the concatenation, in emission order, of the values of the cookies appended so far
+//@ func splitCookie
+//@ safety
+//@ prop C10 C18 C19
+//@ requires[config:attribute-overhead-below-limit] forall k int :: k >= 0 ==> overheadOf(c, splitName(c.Name, k)) < 4000
+//@ requires[config:cookie-name-at-most-256-bytes] len(c.Name) <= 256
+//@ loop 0 ghost acc string init "" step acc + newCookie.Value
+//@ loop 0 invariant[nothing-lost-nothing-duplicated] acc + bytes(valueBytes) == old(c.Value) && c.Value == old(c.Value) && c.Name == old(c.Name)
+//@     && c.Path == old(c.Path) && c.Domain == old(c.Domain) && c.MaxAge == old(c.MaxAge) && c.Secure == old(c.Secure)
+//@     && c.HttpOnly == old(c.HttpOnly) && c.SameSite == old(c.SameSite)
+//@ loop 0 invariant[parts-numbered-consecutively] count == len(cookies) && count >= 0
+//@ at call append assert[part-name] newCookie.Name == splitName(c.Name, count) && len(cookies) == count
+//@ at call append assert[part-within-size-limit] overheadOf(c, newCookie.Name) + len(newCookie.Value) <= 4000
+//@ at call append assert[part-makes-progress] len(newCookie.Value) > 0
+//@ at call append assert[part-attributes-are-the-originals] newCookie.Path == c.Path && newCookie.Domain == c.Domain && newCookie.MaxAge == c.MaxAge
+//@     && newCookie.Secure == c.Secure && newCookie.HttpOnly == c.HttpOnly && newCookie.SameSite == c.SameSite
+//@ ensures[values-concatenate-to-the-original] len(ret(String#0)) >= 4000 ==> acc == old(c.Value)
+//@ ensures[small-cookie-unsplit] len(ret(String#0)) < 4000 ==> len(result) == 1 && result[0] == c
+
+// ghost acc: the concatenation, in index order, of the values of the cookies joined so far
+//@ func joinCookies
+//@ safety
+//@ prop C10
+//@ requires[config:request-cookies-are-non-nil] forall k int :: 0 <= k && k < len(cookies) ==> cookies[k] != nil
+//@ loop 0 ghost acc string init cookies[0].Value step acc + cookies[i].Value
+//@ loop 0 invariant[joined-so-far] c.Value == acc && i >= 1 && forall k int :: 0 <= k && k < len(cookies) ==> cookies[k] != nil && cookies[k] != c
+//@ ensures[empty-list-is-an-error] len(cookies) == 0 ==> ret1 != nil && ret0 == nil
+//@ ensures[single-cookie-returned-as-is] len(cookies) == 1 ==> ret0 == cookies[0] && ret1 == nil
+//@ ensures[values-concatenated-in-index-order-under-the-base-name] len(cookies) >= 2 ==> ret1 == nil && ret0.Value == acc && ret0.Name == cookieName
+
+//@ func loadCookie
+//@ safety
+//@ prop C10
+//@ ensures[unsplit-cookie-as-is] ret1(Cookie#0) == nil ==> ret0 == ret0(Cookie#0) && ret1 == nil
+//@ at call Cookie#0 assert[looks-up-the-base-name] arg(Cookie#0, 1) == cookieName
+//@ at call Cookie#1 assert[looks-up-consecutive-part-names] arg(Cookie#1, 1) == ret(splitCookieName) && arg(splitCookieName, 0) == cookieName
+//@     && arg(splitCookieName, 1) == count && count == len(cookies)
+//@ loop 0 invariant[parts-collected-consecutively] count == len(cookies) && count >= 0
+//@ ensures[no-parts-no-cookie] !called(joinCookies) && ret1(Cookie#0) != nil ==> ret1 == http.ErrNoCookie && ret0 == nil
+//@ at call joinCookies assert[joins-the-collected-parts-under-the-base-name] arg(joinCookies, 0) == cookies && arg(joinCookies, 1) == cookieName && len(cookies) > 0
+
+//@ func (*SessionStore).setSessionCookie
+//@ prop C10 C18
+//@ at call http.SetCookie assert[sets-every-part] arg(http.SetCookie, 0) == rw && ret1(makeSessionCookie) == nil
+//@     && arg(http.SetCookie, 1) == ret0(makeSessionCookie)[rangeindex + 1]
+//@ ensures[error-sets-nothing] ret1(makeSessionCookie) != nil ==> ret0 != nil && !called(http.SetCookie)
